@@ -119,6 +119,7 @@ func mkSend(cf ccfg, m protocol.ChunkEncoder, wfault int) cop {
 
 // C09: no false success, no torn messages.
 func C09(c *core.Ctx) {
+	setFine(c) // fine-grained phase: the same run with LIFO pools
 	r := c.Rng
 	sizes := []int{0, 40, 2000, 2040, 2049, 3000, 4090, 4100, 6200}
 	for _, ack := range []bool{false, true} {
